@@ -192,6 +192,9 @@ def count_nontrivial(trace):
     samples = []
     for l in open(trace):
         e = json.loads(l)
+        if "before" not in e:            # fingerprinted huge case
+            n += 1
+            continue
         insts = e["before"]["inst"]
         classes = [i["class"] for i in insts]
         types = {p[1]["t"] for i in insts for p in i["props"]}
@@ -228,6 +231,7 @@ def run(pid, tier, seed, replay=None):
         # several hundred instances per file (multi-byte referents, long columns); only the round-trip clauses
         # are cheap enough at this size (decoding such a file inside TLC takes tens of minutes)
         plans.append(("scale", seed + 5, 12 if quick else 300, 6))
+        plans.append(("huge", seed + 6, 4 if quick else 24, 6))      # fingerprinted: 17 000 instances, > 1 MiB values, > 65 535 keypoints
     total = 0
     nontrivial = 0
     samples = []
